@@ -494,3 +494,353 @@ def c06(run, args):
                        "(the session stays usable); limits 1000, 5000, 100000 bytes (thorough also the default 10240000); concrete sizes drawn by seed, several repetitions per edge. "
                        "MAIL with SIZE > limit must be refused, an oversized DATA block must get a 4xx/5xx reply and store nothing, anything within the limit is accepted and stored")
     run.assumptions += ["sizes within +-300 bytes of the limit are not tested (the size may legitimately be counted with or without CRLF expansion)"]
+
+
+# --------------------------------------------------------------------------- C05
+C05_DOMS = ["d1.example", "d2.example", "d3.example"]
+C05_ORIGINS = ["good.example", "spam.example", "a.wild.example", "spa1.example", "wild.example"]
+C05_PATTERNS = [[], ["spam.example"], ["*.wild.example"], ["spa?.example"], ["*"], ["spam.example", "*.wild.example"], ["*.example"], ["????.example"]]
+
+
+class PolicyConcretiser(Concretiser):
+    """recipient classes a1/c/rej are three domains whose treatment depends on the configuration under test;
+    domains are spelled in mixed case both in addresses and in the configuration (environment)"""
+
+    def __init__(self, rng, policy, max_rcpt):
+        super().__init__(rng, naming="local", policy=policy, max_rcpt=max_rcpt)
+        self.mixed_cfg = True
+        self.origins = C05_ORIGINS[rng.randrange(len(C05_ORIGINS)):] + C05_ORIGINS
+        self.rc = {
+            "a1": ("u1", C05_DOMS[0], "u1@" + mixcase(C05_DOMS[0], rng)),
+            "c": ("u2", C05_DOMS[1], "U2+x@" + mixcase(C05_DOMS[1], rng)),
+            "rej": ("u3", C05_DOMS[2], "u3@" + mixcase(C05_DOMS[2], rng)),
+        }
+
+
+def c05_policies(quick, seed):
+    """bounded lattice of configurations: every combination of (in accept, in reject, in store, in discard) for each domain
+    (Latin-square style across the three domains), x both default switches, x reject-origin pattern sets, x recipient limit"""
+    out = []
+    n = 0
+    for j in range(16):
+        for da in (True, False):
+            for ds in (True, False):
+                combos = [(j + 5 * i) % 16 for i in range(3)]
+                pol = dict(defaultAccept=da, defaultStore=ds, accept=[], reject=[], store=[], discard=[])
+                for d, cb in zip(C05_DOMS, combos):
+                    if cb & 1:
+                        pol["accept"].append(d)
+                    if cb & 2:
+                        pol["reject"].append(d)
+                    if cb & 4:
+                        pol["store"].append(d)
+                    if cb & 8:
+                        pol["discard"].append(d)
+                pats = C05_PATTERNS if not quick else [C05_PATTERNS[(n + seed) % len(C05_PATTERNS)]]
+                mrs = [0, 1, 2, 3] if not quick else [(n + seed) % 4]
+                for pt in pats:
+                    for mr in mrs:
+                        out.append((dict(pol, rejectOrigin=pt), mr))
+                n += 1
+    return out
+
+
+WILD_CFG = """SPECIFICATION TraceSpec
+POSTCONDITION TraceAccepted
+CHECK_DEADLOCK FALSE
+"""
+
+
+def c05(run, args):
+    if args.replay:
+        return replay_file(run, args)
+    quick = run.tier == "quick"
+    vh = run.build_harness()
+    run.model_check("GenSmtp", gen_cfg(["helo", "mail", "rcpt", "data", "rset", "quit"], 0, "mc", mailkinds=("ok", "origin"), rcptkinds=("a1", "c", "rej"),
+                                       bodykinds=("ok",), maxrcpts=(0, 1, 2, 3)), label="GenSmtp(policy classes)")
+    # dialogues: every sequence of RCPT (three domains) / DATA / body inside a transaction, to a bounded depth
+    dia = run.generate("GenSmtp", gen_cfg(["rcpt", "data"], 7 if quick else 8, "bfs", mailkinds=("ok",), rcptkinds=("a1", "c", "rej"), bodykinds=("ok",),
+                                          maxrcpts=(3,), start_in_tx=True), workers=4)
+    dia = [x for x in dia if sum(1 for a in x if a["c"] == "rcpt") >= 2]
+
+    def with_bodies(seq):
+        # whether DATA is accepted depends on the configuration under test, not on the generator's classes: always offer a
+        # body after DATA (the driver sends it only after a 354)
+        out = []
+        for i, a in enumerate(seq):
+            out.append(a)
+            if a["c"] == "data" and not (i + 1 < len(seq) and seq[i + 1]["c"] == "body"):
+                out.append({"c": "body", "k": "ok"})
+        return out
+    dia = [with_bodies(x) for x in dia]
+    pols = c05_policies(quick, run.seed)
+    run.cov["configurations"] = len(pols)
+    run.cov["distinct_nontrivial"] += len(pols)
+    run.cov["exhaustive"] = True
+    per = 30 if quick else 60
+    beh = []
+    for ci, (pol, mr) in enumerate(pols):
+        rng = random.Random("%d/%d" % (run.seed, ci))
+        chosen = [dia[(ci * 131 + k * 17 + run.seed) % len(dia)] for k in range(per)]
+        for k, seq in enumerate(chosen):
+            conc = PolicyConcretiser(random.Random("%d/%d/%d" % (run.seed, ci, k)), pol, mr)
+            st = ["mem", "file"][(ci + k) % 2] if quick or k % 4 else "file"
+            beh.append({"id": "pol-%d-%d-%s" % (ci, k, st), "store": st, "env": conc.env(), "cfg": conc.cfg(), "names": conc.mailboxes(),
+                        "steps": [conc.step(a) for a in seq], "_abs": seq})
+    run.cov["samples"] = [{"policy": pols[3][0], "maxRcpt": pols[3][1], "env": beh[3 * per]["env"], "dialogue": beh[3 * per]["_abs"]}]
+    replay_and_validate(run, vh, beh, "c05", "C05 domain policy")
+    # wildcard table: every pattern of length <= 4 over {a,b,.,*,?} against every string of length <= 4 over {a,b,.}
+    import itertools
+    pal, sal = "ab.*?", "ab."
+    maxp = 4
+    pats = [""] + ["".join(t) for n in range(1, maxp + 1) for t in itertools.product(pal, repeat=n)]
+    strs = [""] + ["".join(t) for n in range(1, 5) for t in itertools.product(sal, repeat=n)]
+    if quick:
+        strs = [s_ for s_ in strs if len(s_) <= 3]
+    pairs = [[p_, s_] for p_ in pats for s_ in strs]
+    chunks = [{"id": "w%d" % i, "pairs": pairs[i::16]} for i in range(16)]
+    tf = run.harness_parallel(vh, "wild", chunks, "wild")
+    res = run.validate("WildcardTrace", WILD_CFG, tf)
+    run.cov["evaluations"] += len(pairs)
+    run.cov["wildcard_pairs"] = len(pairs)
+    for r in res["rejections"]:
+        ev = r["rejected_event"]
+        run.violation("C05 wildcard matching: MatchWithWildcards(%r, %r) = %s differs from the pattern semantics" % ("".join(ev["p"]), "".join(ev["s"]), ev["r"]),
+                      {"pair": ev, "replay_kind": "wild"})
+    run.cov["rule"] = ("(a) a bounded lattice of configurations (every membership combination of each of three domains in the accept/reject/store/discard lists, both default switches, "
+                       "reject-origin pattern sets with exact/*/? patterns, recipient limit 0..3), loaded through config.Process() from the environment with mixed-case spellings; for each, "
+                       "TLC-enumerated RCPT/DATA dialogues with mixed-case addresses are played on the real server; TLC computes every accept/reject/store decision with Policy.tla / Wildcard.tla "
+                       "and validates replies and the whole store; (b) every wildcard pattern of length <= 4 over {a,b,.,*,?} against every string of length <= 3 (quick) / 4 (thorough) over {a,b,.}: "
+                       "TLC evaluates Match and compares with the recorded answer of MatchWithWildcards")
+    run.assumptions += ["local mailbox naming (domain-case handling of full/domain naming is C04)", "quick: one pattern set and one recipient limit per configuration (rotating with the seed)"]
+
+
+# --------------------------------------------------------------------------- C17
+LUA_UNIVERSAL = r"""
+local function answer(a, sep)
+  local function has(t) return string.find(a, sep .. t, 1, true) ~= nil end
+  if has("gofirst") then return smtp.allow() end
+  if has("allow") then return smtp.allow() end
+  if has("denyc") then return smtp.deny(553, "custom text") end
+  if has("deny") then return smtp.deny() end
+  if has("defer") then return smtp.defer() end
+  if has("nil") then return nil end
+  if has("num") then return 42 end
+  if has("str") then return "allow" end
+  if has("tbl") then return {action = "allow"} end
+  if has("err") then error("boom") end
+  if has("rterr") then local x = nil; return x.field end
+  return nil
+end
+
+function inbucket.before.mail_from_accepted(session)
+  if session.from == nil then return nil end
+  return answer(session.from.address, "h-")
+end
+
+function inbucket.before.rcpt_to_accepted(session)
+  local last = session.to[#session.to]
+  return answer(last.address, "+h-")
+end
+
+function inbucket.before.message_stored(msg)
+  local s = msg.subject
+  local function has(t) return string.find(s, t, 1, true) ~= nil end
+  if has("hs-false") then return false end
+  if has("hs-rw-all") then
+    local res = inbound_message.new()
+    res.mailboxes = {"hookbox1", "hookbox2"}
+    res.from = address.new("Hook From", "hookfrom@h.example")
+    res.to = { address.new("Hook To", "hookto@h.example") }
+    res.subject = "hook subject"
+    return res
+  end
+  if has("hs-rw-mbox") then msg.mailboxes = {"hookbox1"}; return msg end
+  if has("hs-rw-empty") then msg.mailboxes = {}; return msg end
+  if has("hs-rw-subj") then msg.subject = "rewritten subject"; return msg end
+  if has("hs-mut-err") then msg.subject = "evil subject"; msg.from.address = "evil@x.example"; msg.to[1].name = "Evil"; error("boom") end
+  if has("hs-mut-nil") then msg.subject = "evil subject"; msg.from.address = "evil@x.example"; return nil end
+  if has("hs-num") then return 42 end
+  if has("hs-str") then return "x" end
+  if has("hs-badud") then return address.new("A", "a@b.example") end
+  if has("hs-rterr") then local x = nil; return x.field end
+  return nil
+end
+"""
+LUA_NO_HANDLERS = "-- no handlers at all\n"
+LUA_ECHO = r"""
+function inbucket.before.mail_from_accepted(session)
+  if string.find(session.from.address, "echo", 1, true) then return smtp.deny(550, "echo " .. session.from.address) end
+  return nil
+end
+function inbucket.before.rcpt_to_accepted(session)
+  local last = session.to[#session.to]
+  if string.find(last.address, "echo", 1, true) then return smtp.deny(551, "echo " .. session.from.address .. " " .. last.address) end
+  return nil
+end
+function inbucket.before.message_stored(msg)
+  msg.subject = "seen by hook: " .. msg.from.address .. " " .. msg.subject
+  return msg
+end
+"""
+
+HOOK_ANSWER = {
+    "none": None, "nil": None, "num": None, "str": None, "tbl": None, "err": None, "rterr": None,
+    "defer": {"action": "defer"}, "allow": {"action": "allow"},
+    "deny": {"action": "deny", "code": 550, "text": "Mail denied by policy"},
+    "denyc": {"action": "deny", "code": 553, "text": "custom text"},
+    "gofirst": {"action": "deny", "code": 521, "text": "go first"},
+    "golast": {"action": "deny", "code": 522, "text": "go last"},
+}
+STORE_HOOKS = ["hs-none", "hs-false", "hs-rw-all", "hs-rw-mbox", "hs-rw-empty", "hs-rw-subj", "hs-mut-err", "hs-mut-nil", "hs-num", "hs-str", "hs-badud", "hs-rterr"]
+
+
+class HookConcretiser(Concretiser):
+    """spells hook answer classes into the addresses / subject the universal script keys on"""
+
+    def __init__(self, rng, naming="local", policy=None, max_rcpt=3, with_script=True):
+        super().__init__(rng, naming=naming, policy=policy, max_rcpt=max_rcpt)
+        self.with_script = with_script
+
+    def mailboxes(self):
+        return sorted(set(super().mailboxes()) | {"hookbox1", "hookbox2"})
+
+    def hook_answer(self, h):
+        return HOOK_ANSWER[h] if self.with_script else None
+
+    def step(self, a):
+        c = a["c"]
+        h = a.get("hook", "none")
+        if c == "mail" and a["k"] in ("ok", "origin"):
+            dom = "origin.example" if a["k"] == "ok" else "mail.spam.example"
+            local = "sender" if h == "none" else "h-%s" % h
+            addr = "%s@%s" % (local, dom)
+            abs_ = dict(c="mail", syntax=True, sizeparse=True, addrok=True, sender={"addr": "<%s>" % addr}, domchars=list(dom))
+            ans = self.hook_answer(h)
+            if ans:
+                abs_["hook"] = ans
+            return self.line(abs_, "%s %s:<%s>" % (self.verb("MAIL"), self.verb("FROM"), addr))
+        if c == "rcpt" and a["k"] != "bad":
+            local, dom, addr = self.rc[a["k"]]
+            if h != "none":
+                addr = "%s+h-%s@%s" % (local, h, dom)
+            abs_ = dict(c="rcpt", valid=True, dom=dom, addr="<%s>" % addr, mbox=self.mailbox(local, dom))
+            ans = self.hook_answer(h)
+            if ans:
+                abs_["hook"] = ans
+            return self.line(abs_, "%s %s:<%s>" % (self.verb("RCPT"), self.verb("TO"), addr))
+        if c == "body" and a["k"].startswith("hs-"):
+            st = super().body("ok")
+            k = a["k"]
+            # put the key into the subject header
+            data = st["send"].encode("latin-1")
+            subj = st["abs"]["subject"]
+            new_subj = subj + " " + k
+            data = data.replace(b"Subject: " + subj.encode(), b"Subject: " + new_subj.encode(), 1)
+            st["send"] = latin(data)
+            raw = data[:-3]        # without the terminating ".CRLF"
+            un = re.sub(rb"(^|\n)\.\.", rb"\1.", raw)
+            st["abs"]["subject"] = new_subj
+            st["abs"]["size"] = len(un)
+            st["abs"]["bodyhash"] = bodyhash(un)
+            if self.with_script:
+                base = dict(**{"from": st["abs"]["fromhdr"]}, to=st["abs"]["to"], subject=new_subj)
+                if k == "hs-rw-all":
+                    st["abs"]["hook"] = {"action": "replace", "mailboxes": ["hookbox1", "hookbox2"], "from": "Hook From <hookfrom@h.example>",
+                                         "to": ["Hook To <hookto@h.example>"], "subject": "hook subject"}
+                elif k == "hs-rw-mbox":
+                    st["abs"]["hook"] = dict(base, action="replace", mailboxes=["hookbox1"])
+                elif k == "hs-rw-empty":
+                    st["abs"]["hook"] = dict(base, action="replace", mailboxes=[])
+                elif k == "hs-rw-subj":
+                    st["abs"]["hook"] = dict(base, action="replace-keep", subject="rewritten subject")
+            return st
+        return super().step(a)
+
+
+def c17(run, args):
+    if args.replay:
+        return replay_file(run, args)
+    quick = run.tier == "quick"
+    vh = run.build_harness()
+    vhr = run.build_harness(race=True)
+    hooks_basic = ("none", "defer", "allow", "deny", "denyc", "nil", "num", "str", "tbl", "err", "rterr")
+    hooks_go = hooks_basic + ("gofirst", "golast")
+    run.model_check("GenSmtp", gen_cfg(["helo", "mail", "rcpt", "data", "rset", "quit"], 0, "mc", mailkinds=("ok", "origin"), rcptkinds=("a1", "c", "rej"),
+                                       bodykinds=("ok",), hookkinds=hooks_go, maxrcpts=(1, 2)), label="GenSmtp(hook answers)")
+    # every edge of the contract's state graph with every hook answer on MAIL and RCPT
+    tour = run.generate("GenSmtp", gen_cfg(["helo", "mail", "rcpt", "data", "rset"], 80, "tour", mailkinds=("ok", "origin"), rcptkinds=("a1", "c", "rej"),
+                                           bodykinds=("ok",), hookkinds=hooks_go, maxrcpts=(1,) if quick else (1, 2), bound="Bound1"), workers=4)
+    # delivery with every before-message-stored variant, after every recipient combination
+    deliv = run.generate("GenSmtp", gen_cfg(["rcpt", "data"], 6 if quick else 7, "bfs", mailkinds=("ok",), rcptkinds=("a1", "b", "c"), bodykinds=tuple(STORE_HOOKS),
+                                            maxrcpts=(3,), start_in_tx=True), workers=4)
+    deliv = [x for x in deliv if any(a["c"] == "body" for a in x)]
+    if quick:
+        deliv = deliv[run.seed % 3::3]
+    run.cov["distinct_nontrivial"] += len({json.dumps(x, sort_keys=True) for x in tour + deliv})
+    run.cov["exhaustive"] = True
+    beh = []
+    for i, seq in enumerate(tour):
+        st = ["mem", "file"][(i + run.seed) % 2]
+        for variant in (("script", True, True), ("nohandlers", False, False)) if (i % 5 == 0 or not quick) else (("script", True, True),):
+            label, with_script, gohooks = variant
+            if not with_script and any(a.get("hook") in ("gofirst", "golast") for a in seq):
+                continue
+            conc = HookConcretiser(random.Random("%d/%d" % (run.seed, i)), policy=POLICIES[i % 2 * 2], max_rcpt=2, with_script=with_script)
+            beh.append({"id": "hk-%d-%s-%s" % (i, label, st), "store": st, "env": conc.env(), "cfg": conc.cfg(), "names": conc.mailboxes(), "gohooks": gohooks,
+                        "lua": LUA_UNIVERSAL if with_script else LUA_NO_HANDLERS, "steps": [conc.step(a) for a in seq], "_abs": seq})
+    for i, seq in enumerate(deliv):
+        st = ["mem", "file"][(i + run.seed) % 2]
+        conc = HookConcretiser(random.Random("%d/d%d" % (run.seed, i)), naming=["local", "full", "domain"][i % 3], policy=POLICIES[i % 2], max_rcpt=3)
+        beh.append({"id": "hs-%d-%s" % (i, st), "store": st, "env": conc.env(), "cfg": conc.cfg(), "names": conc.mailboxes(), "gohooks": False,
+                    "lua": LUA_UNIVERSAL, "steps": [conc.step(a) for a in seq], "_abs": seq})
+    run.cov["samples"] = [tour[len(tour) // 2], deliv[len(deliv) // 2]] if tour and deliv else []
+    replay_and_validate(run, vh, beh, "c17", "C17 extension hooks")
+    # concurrent sessions against one script, under the race detector: no cross-talk
+    groups = []
+    ng = 3 if quick else 12
+    for g in range(ng):
+        for k in range(8):
+            rng = random.Random("%d/g%d/%d" % (run.seed, g, k))
+            me = "echo%d.%d" % (g, k)
+            conc = Concretiser(rng, naming="local", policy=POLICIES[0], max_rcpt=3)
+            steps = [conc.step({"c": "helo", "verb": "EHLO", "arg": True})]
+            for rep in range(6):
+                deny = {"action": "deny", "code": 550, "text": "echo %s@origin.example" % me}
+                steps.append(conc.line(dict(c="mail", syntax=True, sizeparse=True, addrok=True, sender={"addr": "<%s@origin.example>" % me},
+                                            domchars=list("origin.example"), hook=deny), "MAIL FROM:<%s@origin.example>" % me))
+                ok_sender = "plain%d.%d@origin.example" % (g, k)
+                steps.append(conc.line(dict(c="mail", syntax=True, sizeparse=True, addrok=True, sender={"addr": "<%s>" % ok_sender},
+                                            domchars=list("origin.example")), "MAIL FROM:<%s>" % ok_sender))
+                rc_echo = "echo-r%d.%d@store.example" % (g, k)
+                steps.append(conc.line(dict(c="rcpt", valid=True, dom="store.example", addr="<%s>" % rc_echo, mbox="echo-r%d.%d" % (g, k),
+                                            hook={"action": "deny", "code": 551, "text": "echo %s %s" % (ok_sender, rc_echo)}), "RCPT TO:<%s>" % rc_echo))
+                mine = "box%d.%d" % (g, k)
+                steps.append(conc.line(dict(c="rcpt", valid=True, dom="store.example", addr="<%s@store.example>" % mine, mbox=mine), "RCPT TO:<%s@store.example>" % mine))
+                steps.append(conc.step({"c": "data", "arg": False}))
+                b = conc.body("nohdr")
+                b["abs"]["hook"] = {"action": "replace-keep", "from": "<%s>" % ok_sender, "to": ["<%s@store.example>" % mine],
+                                    "subject": "seen by hook: %s " % ok_sender}
+                steps.append(b)
+            steps.append(conc.step({"c": "quit"}))
+            groups.append({"id": "par-%d-%d" % (g, k), "group": "g%d" % g, "store": ["mem", "file"][g % 2], "env": conc.env(), "cfg": conc.cfg(),
+                           "names": ["box%d.%d" % (g, k)], "novisit": True, "lua": LUA_ECHO, "steps": steps, "_abs": ["8 concurrent sessions, echo script"]})
+    crashes = []
+    payload = [{k: v for k, v in b.items() if k != "_abs"} for b in groups]
+    tf = run.harness_parallel(vhr, "smtp", payload, "c17par", procs=1, crashes=crashes)
+    report_crashes(run, crashes, "C17 concurrent sessions (race detector / crash)")
+    names = sorted({n for b in groups for n in b["names"]})
+    res = run.validate("SmtpTrace", TRACE_CFG % dict(mbs=q(names)), tf)
+    run.cov["evaluations"] += len(groups)
+    byid = {b["id"]: b for b in groups}
+    for r in res["rejections"]:
+        ev = r["rejected_event"]
+        run.violation("C17 concurrent sessions: session %s step #%d -> reply %s %r: a session saw another session's state (or the hook's answer was not honoured)" % (
+            r["trace"], r["rejected_event_index"], ev.get("code"), ev.get("text")), {"behaviour": byid.get(r["trace"]), "rejection": r, "replay_kind": "smtp"})
+    run.cov["rule"] = ("one universal Lua script answers according to a key spelled into the sender / recipient address / subject, so that TLC-generated dialogues exercise every answer class "
+                       "(allow, deny(), deny(code,msg), defer, nil, number, string, table, error(), runtime error, handler absent) for before.mail_from_accepted and before.rcpt_to_accepted on every edge "
+                       "of the contract's state graph (incl. senders/recipients that policy would refuse, the recipient limit, Go listeners ahead of and behind the Lua host for the first-answer rule), "
+                       "and every before.message_stored variant (nil, false, replaced message, changed mailboxes, empty mailboxes, changed subject, mutate-then-error, mutate-then-nil, wrong types) after "
+                       "every recipient combination; replies (code and text for deny) and the whole store are validated by TLC against Smtp.tla; plus 8 concurrent sessions per group against an echoing "
+                       "script under the Go race detector")
+    run.assumptions += ["hook answers are scripted by keys in addresses/subjects (one script), not by generating scripts from a grammar", "data races are observed by the race detector, not expressible in TLA+"]
